@@ -1849,7 +1849,13 @@ func (r *Raft) applyLoop() {
 	defer r.wg.Done()
 
 	for r.state != Shutdown {
-		r.applyCond.Wait()
+		// Only wait if there is nothing to apply. The commit index may have advanced before
+		// this loop started to wait (it is started concurrently with the handling of requests);
+		// that broadcast is lost, and the entries would otherwise not be applied until the
+		// commit index advances again.
+		if r.lastApplied >= r.commitIndex {
+			r.applyCond.Wait()
+		}
 
 		// Scan the log starting at the entry following the last applied entry
 		// and apply any entries that have been committed.
